@@ -266,7 +266,12 @@ class Judge:
                     self.viol("resume-not-solved:%s:%s-after-%s" % (fam, st2, st), "after %s (%s) stopped with %s, the re-solve without limit ends with %s (uninterrupted: %s) under %s" % (
                         fam, par, st, st2, want, cfg), p, cfg, fam, do, [o1, o2], {"unlimited": unl})
                 else:
-                    ck.count("other-status:resume:%s" % st2)
+                    # the re-solve failed for a reason that is not a limit (singular basis, cycling): counted, with samples in the evidence
+                    ck.count("other-status:resume:%s:%s-after-%s:%s" % (fam, st2, st, tag))
+                    ck.cov.setdefault("resume_without_verdict_samples", [])
+                    if len(ck.cov["resume_without_verdict_samples"]) < 8:
+                        ck.cov["resume_without_verdict_samples"].append({"lp": p.text("s"), "config": cfg, "do": do, "first": st, "resumed": st2,
+                                                                          "first_basis": (o1.get("brows"), o1.get("bcols")), "log2": o2.get("log", "")[:200]})
         return ok
 
 
@@ -350,7 +355,9 @@ def main():
     S = sc.Session(ck, exe1, model1)
     J = Judge(ck)
     r = ck.rng
-    nlp, nmax, nrand, nexact = (60, 15, 1, 60) if ck.tier == "quick" else (300, 25, 2, 300)
+    nlp, nmax, nrand, nexact = (60, 15, 1, 60) if ck.tier == "quick" else (1000, 25, 2, 500)
+    if os.environ.get("VERIF_C16_NLP"):
+        nlp = nexact = int(os.environ["VERIF_C16_NLP"])          # development: size override
     lps = []
     if ck.args.replay:
         rp = json.load(open(ck.args.replay))
